@@ -88,13 +88,14 @@ def translate_expression(expr, env: Env) -> TExp:  # noqa: C901
         # Get the inner type
         inner_type = env[sn.split(".")[0]].ttype
         for i in sn.split(".")[1:]:
+            # a negative index is not an element name (t[-1] would become the unknown symbol t.-1)
             if hasattr(inner_type, "BIT_SIZE"):
-                if int(i) < inner_type.BIT_SIZE:
+                if 0 <= int(i) < inner_type.BIT_SIZE:
                     inner_type = bool
                 else:
                     raise exceptions.OutOfBoundException(inner_type.BIT_SIZE, i)
             else:
-                if int(i) < len(get_args(inner_type)):
+                if 0 <= int(i) < len(get_args(inner_type)):
                     inner_type = get_args(inner_type)[int(i)]
                 else:
                     raise exceptions.OutOfBoundException(len(get_args(inner_type)), i)
